@@ -1,12 +1,94 @@
 package main
 
 // mutants.go — construct-anchored rewrites used by the self-test. Each entry
-// names the rule(s) expected to report it.
+// names the rule(s) expected to report it. A mutant whose anchor text no
+// longer exists in the current tree is skipped and counted.
 
 func allMutants() []mutant {
 	var ms []mutant
-	ms = append(ms, mutantsA...)
+	ms = append(ms, mutantsC03...)
+	ms = append(ms, mutantsC08...)
 	return ms
 }
 
-var mutantsA = []mutant{}
+func ps(s ...string) []string { return s }
+
+var mutantsC03 = []mutant{
+	m1("c03-chain-in-place", ps("C03"), ps("C03-APPEND"), "dispatch.go",
+		"chain := make(HandlersChain, 0, len(r.handlers)+len(handlers)+1)\n", "chain := r.handlers[:0]\n",
+		"F8 again: chain assembled on the router's own backing array"),
+	m1("c03-append-route-handlers", ps("C03"), ps("C03-APPEND"), "dispatch.go",
+		"handlers = route.handlers\n", "handlers = append(route.handlers, route.handler)\n",
+		"F8 again: main handler appended to the shared route.handlers"),
+	m1("c03-lazy-default-404", ps("C03"), ps("C03-EFF"), "dispatch.go",
+		"handlers = HandlersChain{internal404Handler}", "r.noRoute = HandlersChain{internal404Handler}\n\t\t\thandlers = r.noRoute",
+		"F9 again: router field written from the request path"),
+	m1("c03-get-rlock", ps("C03", "C14"), ps("C03-LOCK", "C14-LOCK"), "route_cache.go",
+		"c.lock.Lock()\n\tdefer c.lock.Unlock()\n\n\tif element, ok := c.hashMap[k]; ok {\n\t\tc.list.MoveToFront(element)",
+		"c.lock.RLock()\n\tdefer c.lock.RUnlock()\n\n\tif element, ok := c.hashMap[k]; ok {\n\t\tc.list.MoveToFront(element)",
+		"F10 again: recency update under the shared lock"),
+	m1("c03-set-nolock", ps("C03"), ps("C03-LOCK", "C03-EFF"), "route_cache.go",
+		"func (c *cachedRoutes) Set(k string, v *Route) bool {\n\tc.lock.Lock()\n\tdefer c.lock.Unlock()\n", "func (c *cachedRoutes) Set(k string, v *Route) bool {\n",
+		"Set without any lock"),
+	m1("c03-delete-early-unlock", ps("C03"), ps("C03-LOCK", "C03-EFF"), "route_cache.go",
+		"\t\tdelete(c.hashMap, cacheNode.Key)\n\t\tc.list.Remove(element)\n\t\treturn true",
+		"\t\tdelete(c.hashMap, cacheNode.Key)\n\t\tc.lock.Unlock()\n\t\tc.list.Remove(element)\n\t\tc.lock.Lock()\n\t\treturn true",
+		"lock released around the list removal"),
+	m1("c03-handlecontext-put", ps("C03"), ps("C03-POOL"), "dispatch.go",
+		"\tr.handleHTTPRequest(c)\n\t// NOTICE", "\tr.handleHTTPRequest(c)\n\tr.ctxPool.Put(c)\n\t// NOTICE",
+		"F17 again: caller-owned context released"),
+	m1("c03-defer-put", ps("C03", "C09"), ps("C03-POOL"), "dispatch.go",
+		"\tctx.Init(res, req)\n", "\tctx.Init(res, req)\n\tdefer r.ctxPool.Put(ctx)\n",
+		"context recycled even when dispatch panicked"),
+	m1("c03-put-before-dispatch", ps("C03"), ps("C03-POOL"), "dispatch.go",
+		"\tr.handleHTTPRequest(ctx)\n\n\t// ctx.Reset()\n\t// release ctx\n\tr.ctxPool.Put(ctx)", "\tr.ctxPool.Put(ctx)\n\tr.handleHTTPRequest(ctx)",
+		"context returned to the pool before dispatch ends"),
+	m1("c03-init-after-dispatch", ps("C03", "C10"), ps("C03-POOL"), "dispatch.go",
+		"\tctx.Init(res, req)\n\n\t// handle HTTP Request\n\tr.handleHTTPRequest(ctx)\n", "\tr.handleHTTPRequest(ctx)\n\tctx.Init(res, req)\n",
+		"Init no longer precedes dispatch"),
+	{ID: "c03-request-counter", Props: ps("C03"), Rules: ps("C03-EFF"), Desc: "per-request counter added to Router and bumped in ServeHTTP",
+		Edits: []edit{{"router.go", "\t// count routes\n\tcounter int\n", "\t// count routes\n\tcounter int\n\tserved int\n"},
+			{"dispatch.go", "\tctx.Init(res, req)\n", "\tctx.Init(res, req)\n\tr.served++\n"}}},
+	m1("c03-lazy-cache-init", ps("C03"), ps("C03-EFF"), "parse_match.go",
+		"\tif !r.enableCaching {\n\t\treturn\n\t}\n", "\tif !r.enableCaching {\n\t\treturn\n\t}\n\tif r.cachedRoutes == nil {\n\t\tr.cachedRoutes = NewCachedRoutes(int(r.maxNumCaches))\n\t}\n",
+		"cache lazily created from the request path"),
+	m1("c03-match-sorts-shared", ps("C03"), ps("C03-EFF"), "parse_match.go",
+		"\tfor _, m := range anyMethods {\n\t\tif m == method {", "\tanyMethods[0] = anyMethods[0]\n\tfor _, m := range anyMethods {\n\t\tif m == method {",
+		"request path writes an element of a package-level slice"),
+}
+
+var mutantsC08 = []mutant{
+	// C10
+	m1("c10-reset-keeps-data", ps("C10"), ps("C10-RESET"), "context.go", "\tc.data = nil\n", "", "Reset forgets the data map"),
+	m1("c10-reset-keeps-params", ps("C10", "C09"), ps("C10-RESET"), "context.go", "\tc.Params = nil\n\tc.handlers", "\tc.handlers", "Reset forgets Params"),
+	m1("c10-reset-keeps-status", ps("C10"), ps("C10-RESET"), "response_wirter.go", "\tw.status = 0\n", "", "writer reset forgets the status"),
+	m1("c10-new-field-not-reset", ps("C10"), ps("C10-RESET"), "context.go", "\tErrors []error\n", "\tErrors []error\n\taccepted []string\n", "new context field that is never reset"),
+	m1("c10-errors-full-reslice", ps("C10"), ps("C10-RESET", "C10-PRISTINE"), "context.go", "c.Errors = c.Errors[:0]", "c.Errors = c.Errors[:len(c.Errors)]", "errors of the previous request stay visible"),
+	m1("c10-conditional-reset", ps("C10"), ps("C10-RESET"), "context.go", "\tc.Req = r\n\tc.Reset()\n", "\tc.Req = r\n\tif c.index != -1 {\n\t\tc.Reset()\n\t}\n", "Reset only on some paths of Init"),
+	m1("c10-handlecontext-noreset", ps("C10"), ps("C10-INIT"), "dispatch.go", "\tc.Reset()\n\tr.handleHTTPRequest(c)", "\tr.handleHTTPRequest(c)", "re-dispatch without Reset"),
+	m1("c10-index-from-old", ps("C10"), ps("C10-RESET"), "context.go", "\tc.index = -1\n\tc.data = nil", "\tc.index = c.index % 2 - 1\n\tc.data = nil", "cursor reset to a value derived from the old cursor"),
+	m1("c10-reslice-extend", ps("C10"), ps("C10-PRISTINE"), "context.go", "func (c *Context) FirstError() error {\n", "func (c *Context) FirstError() error {\n\tc.Errors = c.Errors[:cap(c.Errors)]\n", "pooled slice re-extended to its capacity"),
+	// C08
+	m1("c08-flush-nocommit", ps("C08"), ps("C08-PRECOMMIT"), "response_wirter.go", "\tw.ensureWriteHeader()\n\tw.Writer.(http.Flusher).Flush()", "\tw.Writer.(http.Flusher).Flush()", "F11 again"),
+	m1("c08-write-nocommit", ps("C08"), ps("C08-PRECOMMIT"), "response_wirter.go", "\tw.ensureWriteHeader()\n\n\tn, err = w.Writer.Write(b)", "\tn, err = w.Writer.Write(b)", "Write without the explicit commit"),
+	m1("c08-latch-not-set", ps("C08"), ps("C08-LATCH"), "response_wirter.go", "\t\tw.length = 0\n\t\tw.Writer.WriteHeader(w.status)", "\t\tw.Writer.WriteHeader(w.status)", "commit does not mark the response written"),
+	m1("c08-eager-writeheader", ps("C08"), ps("C08-LATCH", "C08-RECORD"), "response_wirter.go", "\t\tw.status = status\n\t}\n", "\t\tw.status = status\n\t}\n\tw.Writer.WriteHeader(status)\n", "WriteHeader commits eagerly and lazily"),
+	m1("c08-unguarded-commit", ps("C08"), ps("C08-LATCH"), "response_wirter.go", "\tif !w.Written() {\n\t\tif w.status == 0 {", "\tif w.status >= 0 {\n\t\tif w.status == 0 {", "commit not guarded by the written test"),
+	m1("c08-status-nonpositive", ps("C08"), ps("C08-RECORD"), "response_wirter.go", "if status > 0 && w.status != status {", "if w.status != status {", "non-positive status recorded"),
+	m1("c08-end-early-return", ps("C08"), ps("C08-END"), "dispatch.go", "\tif r.OnError != nil && len(ctx.Errors) > 0 {\n\t\tr.OnError(ctx)\n\t}", "\tif r.OnError != nil && len(ctx.Errors) > 0 {\n\t\tr.OnError(ctx)\n\t\treturn\n\t}", "early return before the end-of-request commit"),
+	m1("c08-recover-nocommit", ps("C08", "C09"), ps("C08-END"), "dispatch.go", "\t\t\t\tr.OnPanic(ctx)\n\t\t\t\t// the normal end of dispatch is skipped by the panic, so write the status set by the hook here\n\t\t\t\tctx.writer.ensureWriteHeader()", "\t\t\t\tr.OnPanic(ctx)", "F12 again"),
+	m1("c08-length-wrong-count", ps("C08"), ps("C08-LATCH"), "response_wirter.go", "n, err = w.Writer.Write(b)\n\tw.length += n", "n, err = w.Writer.Write(b)\n\tw.length += len(b)", "length counts offered instead of accepted bytes"),
+	m1("c08-reset-written-elsewhere", ps("C08"), ps("C08-LATCH"), "response_wirter.go", "\t\tw.status = status\n\t}\n", "\t\tw.status = status\n\t\tw.length = noWritten\n\t}\n", "status change re-opens a committed response"),
+	m1("c08-resp-raw", ps("C08"), ps("C08-FACADE"), "context.go", "\tc.Resp = &c.writer\n\tc.Params = nil", "\tc.Resp = c.writer.Writer\n\tc.Params = nil", "Resp points at the raw writer"),
+	m1("c08-adapter-raw", ps("C08", "C20"), ps("C08-FACADE", "C20-ADAPT"), "middleware.go", "gh.ServeHTTP(c.Resp, c.Req)", "gh.ServeHTTP(c.RawWriter(), c.Req)", "adapter hands out the raw writer"),
+	// C09
+	m1("c09-defer-after-match", ps("C09"), ps("C09-FRAME"), "dispatch.go",
+		"\tif r.OnPanic != nil {\n\t\tdefer func() {\n\t\t\tif ret := recover(); ret != nil {\n\t\t\t\tctx.Set(CTXRecoverResult, ret)\n\t\t\t\tr.OnPanic(ctx)\n\t\t\t\t// the normal end of dispatch is skipped by the panic, so write the status set by the hook here\n\t\t\t\tctx.writer.ensureWriteHeader()\n\t\t\t}\n\t\t}()\n\t}\n\n\tpath := ctx.Req.URL.Path\n\tif r.useEncodedPath {\n\t\tpath = ctx.Req.URL.EscapedPath()\n\t}\n\n\t// matching route\n\troute, params, allowed := r.QuickMatch(ctx.Req.Method, path)\n",
+		"\tpath := ctx.Req.URL.Path\n\tif r.useEncodedPath {\n\t\tpath = ctx.Req.URL.EscapedPath()\n\t}\n\n\t// matching route\n\troute, params, allowed := r.QuickMatch(ctx.Req.Method, path)\n\tif r.OnPanic != nil {\n\t\tdefer func() {\n\t\t\tif ret := recover(); ret != nil {\n\t\t\t\tctx.Set(CTXRecoverResult, ret)\n\t\t\t\tr.OnPanic(ctx)\n\t\t\t\tctx.writer.ensureWriteHeader()\n\t\t\t}\n\t\t}()\n\t}\n",
+		"recover frame installed after matching"),
+	m1("c09-hook-before-store", ps("C09"), ps("C09-FRAME"), "dispatch.go", "\t\t\t\tctx.Set(CTXRecoverResult, ret)\n\t\t\t\tr.OnPanic(ctx)\n", "\t\t\t\tr.OnPanic(ctx)\n\t\t\t\tctx.Set(CTXRecoverResult, ret)\n", "hook called before the value is stored"),
+	m1("c09-always-recover", ps("C09"), ps("C09-FRAME"), "dispatch.go", "\tif r.OnPanic != nil {\n\t\tdefer func() {\n\t\t\tif ret := recover(); ret != nil {\n\t\t\t\tctx.Set(CTXRecoverResult, ret)\n\t\t\t\tr.OnPanic(ctx)", "\t{\n\t\tdefer func() {\n\t\t\tif ret := recover(); ret != nil && r.OnPanic != nil {\n\t\t\t\tctx.Set(CTXRecoverResult, ret)\n\t\t\t\tr.OnPanic(ctx)", "panics swallowed when no hook is set"),
+	m1("c09-recover-in-next", ps("C09"), ps("C09-ONLY"), "context.go", "func (c *Context) Next() {\n\tc.index++", "func (c *Context) Next() {\n\tdefer func() { _ = recover() }()\n\tc.index++", "second recover around the executor"),
+	m1("c09-panicshandler-noabort", ps("C09"), ps("C09-INCHAIN"), "pkg/handlers/middlewares.go", "\t\t\t\tc.Abort()\n", "", "F13 again"),
+	m1("c09-wrong-key", ps("C09"), ps("C09-FRAME"), "dispatch.go", "ctx.Set(CTXRecoverResult, ret)", "ctx.Set(CTXCurrentRouteName, ret)", "recovered value stored under another key"),
+}
